@@ -283,6 +283,22 @@ MAX_REJECT_PER_FILE = 4
 MAX_EVENTS_PER_TLC = 250000
 
 
+# ids of the running check (set by the checks) and the ids the oracle knows
+OWN_IDS = None
+ALL_IDS = ["C01C02", "C01C06", "C01C07", "C03", "C04", "C04C05", "C05", "C06", "C07", "C07C08", "C07C14", "C08", "C09",
+           "C11", "C13", "C14", "C15", "C16", "C17", "C18"]
+
+
+def own_cfg(wd):
+    """trace cfg in which only the ids of the running check block (everything else is followed, not judged)"""
+    path = os.path.join(wd, "MQAbsTraceOwn.cfg")
+    ign = [i for i in ALL_IDS if i not in set(OWN_IDS or [])]
+    with open(path, "w") as f:
+        f.write("SPECIFICATION Spec\nCONSTANT Ignore = {%s}\nCONSTANT Strict = TRUE\nCONSTRAINT Reg\n"
+                "POSTCONDITION Accepted\nCHECK_DEADLOCK FALSE\n" % ", ".join('"%s"' % i for i in ign))
+    return path
+
+
 # per trace file (one per exploration shard) at most this many memory-manager events are validated (whole runs)
 MM_MAX_EVENTS_PER_FILE = 600000
 MM_KEEP = ('"e":"reset"', '"e":"mminit"', '"e":"mm"', '"e":"ret"', '"e":"stuck"')
@@ -331,13 +347,19 @@ def validate_file(trace_file, wd, mm=False):
             start = s0
     chunks.append(lines[start:])
     it = 0
-    for cur in chunks:
-        while cur and len(res["rejected"]) < MAX_REJECT_PER_FILE:
+    cfgpath = os.path.join(SPEC, cfgname)
+    cap = MAX_REJECT_PER_FILE
+    second_pass = False
+    ci = 0
+    while ci < len(chunks):
+        cur = chunks[ci]
+        ci += 1
+        while cur and len(res["rejected"]) < cap:
             it += 1
             part = os.path.join(wd, base + ".part%d" % it)
             with open(part, "w") as f:
                 f.write("\n".join(cur) + "\n")
-            consumed, n, _, r = _tlc_trace(part, os.path.join(SPEC, cfgname),
+            consumed, n, _, r = _tlc_trace(part, cfgpath,
                                            os.path.join(wd, base + ".tlc%d" % it), module=module)
             res["states"] += r["distinct"]
             res["generated"] += r["generated"]
@@ -357,7 +379,16 @@ def validate_file(trace_file, wd, mm=False):
             res["accepted"] += len([1 for (s, e) in runs if e <= bad[0]])
             res["rejected"].append({"lines": cur[bad[0]:bad[1]], "at": consumed - bad[0]})
             cur = cur[bad[1]:]
-        if len(res["rejected"]) >= MAX_REJECT_PER_FILE:
+        if len(res["rejected"]) >= cap:
+            if not mm and not second_pass and OWN_IDS:
+                # the rest of the file is looked at once more for the check's own ids only, so that frequent
+                # violations of other properties cannot use up the budget and hide a rarer one of this property
+                second_pass = True
+                cap = 2 * MAX_REJECT_PER_FILE
+                cfgpath = own_cfg(wd)
+                chunks = chunks[:ci] + [cur] + chunks[ci:] if cur else chunks
+                res["own_ids_pass"] = True
+                continue
             res["unchecked_after_rejections"] = True
             break
     return res
